@@ -46,6 +46,17 @@ CHECKS = {
         "returned, error class and cause named are compared with the reference.",
         "Trusted: the scripted node (60 lines), the reference (30 lines). Client-level transport retries are disabled so one attempt = one request.",
     ),
+    "C06": (
+        "model_checking",
+        "explicit-state exploration of call histories of the real ThroughputCalculator: all streams on a time grid x all ordered "
+        "set partitions into batches (arrival orders x cuts) x second-task interleaving; operation counts decoded from base-4 weights",
+        "DESIGN.md §4 C06",
+        "Every stream of up to 4 (thorough 5) samples on a 6 (8)-point time grid with every warm-up/normal assignment is delivered to a "
+        "real ThroughputCalculator in every ordered partition into batches (every arrival order across clients and every cut), alone and "
+        "with batches of a second task in between. Sample i carries 4^i operations so value*elapsed decodes into which samples were "
+        "counted and how often: exact for in-order histories, bracketed for out-of-order ones. Exhaustive within the grammar.",
+        "Trusted: the oracle (80 lines). Samples share one task start; grid and bounds in the evidence.",
+    ),
 }
 
 NOT_YET = {}
